@@ -141,6 +141,7 @@ func (p *wat2wasmWorker) buildInstruction(dst *wasm.Code, fn *ast.Func, i ast.In
 		ins := i.(ast.Ins_Select)
 		if ins.ResultTyp != 0 {
 			dst.Body = append(dst.Body, wasm.OpcodeTypedSelect)
+			dst.Body = append(dst.Body, 1) // vec(valtype): one result type
 			switch ins.ResultTyp {
 			case token.I32:
 				dst.Body = append(dst.Body, wasm.ValueTypeI32)
